@@ -55,6 +55,13 @@ func genC15(t *rapid.T) C15Case {
 		c.Conv = &x
 	case "c04":
 		x := genC04(t)
+		// header and trailer calls concurrent with sends, on the handler side too
+		for i := range x.Convs {
+			if x.Convs[i].Kind != kit.KindUnary && rapid.Bool().Draw(t, "concmd") {
+				x.Convs[i].H.ConcurrentMD = true
+				x.Convs[i].Concurrent = true
+			}
+		}
 		c.Conv = &x
 	case "c07":
 		x := genC07(t)
@@ -70,6 +77,7 @@ func genC15(t *rapid.T) C15Case {
 		c.C11 = &x
 	case "c16":
 		x := genC16(t)
+		x.ConcAttach = true // peers attach while traffic is flowing
 		c.C16 = &x
 	case "c16rpc":
 		x := genC16RPC(t)
